@@ -101,6 +101,24 @@ Loops ==
    C("for3/nested", <<For3(Def1("i", N(0)), PB(1, CmpE("<", Var("i"), N(2))), Inc("i"), <<For3(Def1("j", N(0)), PB(2, CmpE("<", Var("j"), N(2))), Inc("j"), <<PrintS(<<Var("i"), Var("j")>>)>>)>>)>>),
    C("for3/ifinside", <<For3(Def1("i", N(0)), PB(1, CmpE("<", Var("i"), N(2))), Inc("i"), <<If(<<Branch(PB(2, CmpE("==", Var("i"), N(0))), <<L("zero")>>), Branch(PB(3, T), <<L("other")>>)>>, <<>>)>>)>>)}
 
-All == Exprs \cup Calls \cup Stores \cup World \cup Chains \cup Switches \cup Loops
+\* one operand is a literal or a variable, the other has an effect: no operand that is written down may be skipped, whatever the literal decides
+\* (folding false && f(), true || f(), 0 * f(), f() * 0, f() - f() ...), in every place a condition or value can stand
+MixCtx == {"print", "if", "elif", "for", "def", "arg"}
+InCtx(c, e) == CASE c = "print" -> <<Print1(e)>> [] c = "if" -> <<IfElse(e, <<L("then")>>, <<L("else")>>)>>
+                 [] c = "elif" -> <<If(<<Branch(F, <<L("first")>>), Branch(e, <<L("second")>>)>>, <<L("else")>>)>>
+                 [] c = "for" -> <<Def1("n", N(0)), ForCond(Lgc("&&", CmpE("<", Var("n"), N(2)), e), <<Inc("n")>>), Print1(Var("n"))>>
+                 [] c = "def" -> <<Def1("r", e), Print1(Var("r"))>> [] c = "arg" -> <<Print1(PB(9, e))>>
+MixedLogic == {C("mixlogic/" \o o \o "/" \o side \o BS(p) \o BS(q) \o "/" \o form \o "/" \o c,
+                 <<Def1("x", BV(p))>> \o InCtx(c, LET lit == IF form = "lit" THEN BV(p) ELSE IF form = "var" THEN Var("x") ELSE Grp(BV(p))
+                                                IN IF side = "L" THEN Lgc(o, lit, PB(1, BV(q))) ELSE Lgc(o, PB(1, BV(q)), lit)))
+               : o \in {"&&", "||"}, side \in {"L", "R"}, p \in Bools, q \in Bools, form \in {"lit", "var", "grp"}, c \in MixCtx}
+MixedArith == {C("mixarith/" \o nm[1], <<Def1("z", N(0)), Def1("one", N(1)), Print1(nm[2])>>)
+               : nm \in {<<"0*f", Bin("*", N(0), PI(1, N(5)))>>, <<"f*0", Bin("*", PI(1, N(5)), N(0))>>, <<"z*f", Bin("*", Var("z"), PI(1, N(5)))>>, <<"f*z", Bin("*", PI(1, N(5)), Var("z"))>>,
+                          <<"f-f", Bin("-", PI(1, N(5)), PI(1, N(5)))>>, <<"f+0", Bin("+", PI(1, N(5)), N(0))>>, <<"0+f", Bin("+", N(0), PI(1, N(5)))>>, <<"1*f", Bin("*", N(1), PI(1, N(5)))>>,
+                          <<"f/1", Bin("/", PI(1, N(5)), N(1))>>, <<"f%1", Bin("%", PI(1, N(5)), N(1))>>, <<"0/f", Bin("/", N(0), PI(1, N(5)))>>, <<"f==f", CmpE("==", PI(1, N(5)), PI(1, N(5)))>>,
+                          <<"f<f", CmpE("<", PI(1, N(5)), PI(1, N(5)))>>, <<"1<f", CmpE("<", N(1), PI(1, N(5)))>>, <<"s+empty", Bin("+", PS(1, StrL("a")), StrL(""))>>, <<"empty+s", Bin("+", StrL(""), PS(1, StrL("a")))>>,
+                          <<"s==s", CmpE("==", PS(1, StrL("a")), PS(1, StrL("a")))>>, <<"notnot", Not(Not(PB(1, T)))>>, <<"b==true", CmpE("==", PB(1, T), T)>>, <<"true!=b", CmpE("!=", T, PB(1, F))>>,
+                          <<"grp", Grp(Grp(PI(1, N(5))))>>, <<"itoa", Itoa(Bin("*", N(0), PI(1, N(5))))>>, <<"len", LenE(Bin("+", PS(1, StrL("ab")), StrL("")))>>}}
+All == MixedLogic \cup MixedArith \cup Exprs \cup Calls \cup Stores \cup World \cup Chains \cup Switches \cup Loops
 ASSUME ndJsonSerialize("fam.ndjson", SetToSeq(All))
 =============================================================================
